@@ -142,3 +142,22 @@ MANIFEST_TEXT.update({
                     "(own transcoder; kb_jwt absent / null / extra member) and requires equal decision and claims (pair.format), and equal selections from holders built from both forms (pair.present).",
             "note": _NOTE, "technique": "TLA+ trace validation of paired executions (format-independent specification)"},
 })
+
+PLANS["C08"] = P(
+    "model_checking",
+    ["verify.lenient.unpack", "verify.claims", "scn.expect.reject", "scn.expect.claims", "scn.model.agrees"],
+    [{"module": "MC_malformed", "quick": "MC_malformed_quick.cfg", "thorough": "MC_malformed.cfg", "timeout": {"quick": 300, "thorough": 900}}],
+    [{"driver": "replay", "scn": "MC_malformed", "args": {"n": 800, "matrix": 0}}],
+    [{"driver": "replay", "scn": "MC_malformed", "args": {"n": 100000, "matrix": 0}}],
+    required={"verify.lenient.unpack": 500, "verify.claims": 30, "scn.model.agrees": 800},
+    rule="cases = validly signed payload/disclosure structures from MC_malformed: a template with four digest slots (root _sd, array placeholder, nested _sd inside a "
+         "disclosed value) and every set of <= 2 deviations out of 76 (15 ill-formed disclosure shapes per slot, duplicated digests within/across/nested, non-string entries, "
+         "placeholders with extra members, _sd not an array, _sd_alg variants, withheld disclosures), signed with the test issuer key and verified in both serializations; "
+         "distinct = distinct deviation sets (quick: a seeded sample of the 2441; thorough: all)",
+    assumptions=_A,
+)
+MANIFEST_TEXT["C08"] = {
+    "text": "Unpack is the most lenient reading of draft-07 8.1 step 3 (ERR exactly for the MUST-reject cases). TLC checks Inv_C08 on MC_malformed: for each of the 2441 deviation sets the "
+            "specified verifier rejects iff an independently written 'theory of the template' (MustReject) says the draft requires it. Every structure is signed with the test issuer key, "
+            "replayed against the real verifier and validated by TLC: Unpack = ERR obliges rejection, acceptance obliges claims = Unpack(..).",
+    "note": _NOTE, "technique": "TLA+ bounded model checking (TLC) of the disclosure-processing algorithm + scenario replay + trace validation"}
